@@ -11,6 +11,7 @@ mod c01;
 mod c17;
 mod c18;
 mod c19;
+mod c15;
 mod inputs;
 
 #[path = "/repo/harper-ls/src/git_commit_parser.rs"]
@@ -32,6 +33,7 @@ fn main() {
         "c17" => c17::main(&a),
         "c18" => c18::main(&a),
         "c19" => c19::main(&a),
+        "c15" => c15::main(&a),
         other => {
             eprintln!("unknown subcommand {other}");
             std::process::exit(2);
